@@ -1237,6 +1237,7 @@ class RTCSctpTransport(AsyncIOEventEmitter):
             self._last_sacked_tsn, self._sent_queue[0].tsn
         ):
             schunk = self._sent_queue.popleft()
+            schunk._retransmit = False
             done += 1
             if not schunk._acked:
                 done_bytes += schunk._book_size
@@ -1649,8 +1650,10 @@ class RTCSctpTransport(AsyncIOEventEmitter):
         cwnd = min(self._flight_size + burst_size, self._cwnd)
 
         # retransmit
+        # NOTE: sending may suspend (e.g. a TURN channel being bound) and a SACK
+        # handled in the meantime changes the queue, so walk a copy of it
         retransmit_earliest = True
-        for chunk in self._sent_queue:
+        for chunk in list(self._sent_queue):
             if chunk._retransmit:
                 if self._fast_recovery_transmit:
                     self._fast_recovery_transmit = False
